@@ -375,7 +375,8 @@ def run(ck, w):
         for bb, j, s in rules.agg_sites(b, "apath::Apath"):
             n += 1
             if b.root == "apath::Apath::append":
-                src = flow.origins_x(lib, b, s["rv"]["ops"][0])
+                # (the new string may be a mutated clone of self, or `[self, "/", child].concat()`)
+                src = flow.origins_x(lib, b, s["rv"]["ops"][0], through_all=[r"<impl \[.*\]>::(concat|join)$|Concat<.*>>?::concat$|Join<.*>>?::join$"])
                 if not any(x[0] == "param" and x[1] == "self" for x in src):
                     problems.append((b, "append does not extend self"))
                 continue
